@@ -9,22 +9,39 @@ use serde_json::{json, Value};
 
 use crate::{bytes, chars, gres, r_err, r_ok, res, res_unit, vbool};
 
+/// components of a string that is trivially a canonical absolute path (decided syntactically here, without
+/// rivia): the validator then skips the character-level resolution; anything else is resolved by the spec.
+fn canon_arg(s: &str) -> (Value, &'static str) {
+    if s.starts_with('/') && !s.contains('~') && !s.contains('$') && !s.contains(':') {
+        let cs: Vec<&str> = if s == "/" { vec![] } else { s[1..].split('/').collect() };
+        if cs.iter().all(|c| !c.is_empty() && *c != "." && *c != "..") {
+            return (json!(cs), "t");
+        }
+    }
+    (json!([]), "f")
+}
+fn mk(op: &str, a: &str, b: &str, d: &[u8], m: u32, n: u32, sym: &str, ls: &[&str], flags: &str) -> Value {
+    let (ac, aok) = canon_arg(a);
+    let (bc, bok) = canon_arg(b);
+    json!({"op": op, "a": chars(a), "ac": ac, "aok": aok, "b": chars(b), "bc": bc, "bok": bok, "d": bytes(d), "m": m, "n": n, "s": chars(sym),
+           "ls": ls.iter().map(|x| bytes(x.as_bytes())).collect::<Vec<_>>(), "f": chars(flags)})
+}
 pub fn call(op: &str, a: &str, b: &str) -> Value {
-    json!({"op": op, "a": chars(a), "b": chars(b), "d": [], "m": 0, "n": 0, "s": [], "ls": [], "f": []})
+    mk(op, a, b, &[], 0, 0, "", &[], "")
 }
 pub fn call_d(op: &str, a: &str, d: &[u8]) -> Value {
-    json!({"op": op, "a": chars(a), "b": [], "d": bytes(d), "m": 0, "n": 0, "s": [], "ls": [], "f": []})
+    mk(op, a, "", d, 0, 0, "", &[], "")
 }
 pub fn call_m(op: &str, a: &str, m: u32, n: u32) -> Value {
-    json!({"op": op, "a": chars(a), "b": [], "d": [], "m": m, "n": n, "s": [], "ls": [], "f": []})
+    mk(op, a, "", &[], m, n, "", &[], "")
 }
 pub fn call_ls(op: &str, a: &str, ls: &[&str]) -> Value {
-    json!({"op": op, "a": chars(a), "b": [], "d": [], "m": 0, "n": 0, "s": [], "ls": ls.iter().map(|x| bytes(x.as_bytes())).collect::<Vec<_>>(), "f": []})
+    mk(op, a, "", &[], 0, 0, "", ls, "")
 }
 /// builder calls: chmod_b / chown_b / copy_b; flags: r = recursive, R = no_recurse, F = follow,
 /// a/d/f = octal applies to all/dirs/files (chmod_b, copy_b), u/g = set uid (m) / gid (n) (chown_b)
 pub fn call_b(op: &str, a: &str, b: &str, m: u32, n: u32, sym: &str, flags: &str) -> Value {
-    json!({"op": op, "a": chars(a), "b": chars(b), "d": [], "m": m, "n": n, "s": chars(sym), "ls": [], "f": chars(flags)})
+    mk(op, a, b, &[], m, n, sym, &[], flags)
 }
 
 fn s_of(v: &Value) -> String {
